@@ -134,7 +134,7 @@ CHECKS = {
                    "Tie: real bridge processor with SQL-trigger faults at a chosen write statement (bridgestore) and real tree package with statement-level faults incl. reads (tree); retry compared with a fault-free twin; "
                    "the L1 info tree store (l1infostore: `blk!` — one-shot SQL-trigger fault at a chosen write statement of block / leaf / batch rows and of both trees' roots and nodes, retry, twin and contract references) and the injected-GER store (gersync: `poll!`) the same way: the model's faulted attempt (`processBlockF`, `poll!` = `poll`) changes nothing, the real stores must agree. "
                    "Genuine defects found by this check and fixed in /repo: F1 (rollback left the frontier polluted), F14 (initCache advanced lastIndex before the cache was rebuilt), F2 (transient AddLeaf error reported as inconsistency without halting).",
-        level_note="Trusted: Lean kernel; H.Inj; model/code correspondence (generator-bounded). Process kill = rollback of the open transaction + restart (SQLite atomic commit trusted). The driver's retry loop is argued from the two theorems, not modelled as a goroutine. For the L1 info and injected-GER stores atomicity under a fault is the model's DEFINITION of a faulted attempt (state unchanged), checked against the real stores by the correspondence run, not a theorem about their statement sequences.",
+        level_note="Trusted: Lean kernel; H.Inj; model/code correspondence (generator-bounded). Process kill = rollback of the open transaction + restart (SQLite atomic commit trusted). The driver's retry loop is argued from the two theorems, not modelled as a goroutine. For the L1 info and injected-GER stores: C07_l1info_atomic / C07_ger_atomic prove all-or-nothing for every LOGICAL failure (halted, duplicate block, announced-root mismatch, recurring tree state); for a failing storage statement the faulted attempt is the model's definition (state unchanged), justified by C07_code_facts (every statement error is returned, rollback unless committed — regenerated from the source) and checked against the real stores by the correspondence run.",
         rule="bridgestore: 35% of blocks get 1-2 faulted attempts at a uniformly chosen write statement (block insert, root/rht inserts inside AddLeaf, row inserts, legacy deletes) before a clean retry, some with a restart in between; "
              "tree: statement-level faults incl. SELECTs in initCache; distinct non-trivial = distinct twin comparisons",
         assumptions=["H.Inj", "WFhistory"],
